@@ -55,6 +55,26 @@ theorem RunAll.mono {σ ℓ : Type} {step : Step σ ℓ} {C C' : σ → ℓ → 
     intro s hs h
     exact ⟨himp s l hs h.1, fun s' hst => ih s' (hR s l s' hs hst) (h.2 s' hst)⟩
 
+/-- executable form of `RunAll` for decidable side conditions (used for the non-vacuity examples) -/
+def runAllb {σ ℓ : Type} (c : σ → ℓ → Bool) (step : Step σ ℓ) : σ → List ℓ → Bool
+  | _, [] => true
+  | s, l :: ls => c s l && (match step s l with
+    | some s' => runAllb c step s' ls
+    | none => true)
+
+theorem runAllb_sound {σ ℓ : Type} {c : σ → ℓ → Bool} {C : σ → ℓ → Prop} {step : Step σ ℓ}
+    (hc : ∀ s l, c s l = true → C s l) : ∀ (ls : List ℓ) (s : σ), runAllb c step s ls = true → RunAll C step s ls := by
+  intro ls
+  induction ls with
+  | nil => intro s _; trivial
+  | cons l ls ih =>
+    intro s h
+    simp only [runAllb, Bool.and_eq_true] at h
+    refine ⟨hc s l h.1, ?_⟩
+    intro s' hs
+    rw [hs] at h
+    exact ih s' h.2
+
 /-- a run from a reachable state stays among the reachable states, prefix by prefix -/
 theorem run_prefix_reachable {σ ℓ : Type} (step : Step σ ℓ) (init s : σ) (h0 : Reachable step init s)
     (pre : List ℓ) (x : σ) (hx : run step s pre = some x) : Reachable step init x :=
